@@ -7,7 +7,7 @@ import ast
 from ..cfg import build_cfg, calls_in, node_calls
 from ..core import Ctx, property_info, rule, share
 from ..model import AnalysisError, FuncInfo, walk_no_nested
-from ..q import A, Dispatch, L, asrc, call_name_of, return_values, bound_arg, enum_members, is_self_attr, kwarg, stores, unparse
+from ..q import A, Dispatch, L, arg_forms, asrc, call_name_of, flows, func_text, leaves_at, node_containing, raw_forms, return_values, bound_arg, enum_members, is_self_attr, kwarg, stores, unparse
 from .c03 import declare_before_use, event_grammar, writer_typestate
 
 M = "xsdata.formats.dataclass.models"
@@ -50,6 +50,27 @@ def _kind_chain(ctx: Ctx) -> tuple[dict[str, str], str | None]:
             out[key.split(".", 1)[1]] = next(iter(flags)) if len(flags) == 1 else "?"
     ef = _true_flag_stores(d.under(None))
     return out, (next(iter(ef)) if len(ef) == 1 else None)
+
+
+def _meta_keyword_names(build: FuncInfo) -> dict[str, str]:
+    """Local container name -> the XmlMeta(...) keyword it is passed as (through temporaries, tuple packing / unpacking, inlined helpers)."""
+    meta_kw: dict[str, str] = {}
+    gb_ = build_cfg(build.node)
+    for c in calls_in(build.node):
+        if unparse(c.func) == "XmlMeta":
+            cn = node_containing(gb_, c)
+            for k in c.keywords:
+                for leaf, chain in (flows(build, cn, k.value) if cn is not None else []):
+                    if isinstance(leaf, ast.Name):
+                        meta_kw[leaf.id] = k.arg
+                    for dn in chain:
+                        st_ = dn.ast
+                        tg_ = st_.targets if isinstance(st_, ast.Assign) else ([st_.target] if isinstance(st_, ast.AnnAssign) else [])
+                        for t_ in tg_:
+                            if isinstance(t_, ast.Name):
+                                meta_kw.setdefault(t_.id, k.arg)
+                meta_kw.setdefault(unparse(k.value), k.arg)
+    return meta_kw
 
 
 @rule("C01.R1")
@@ -107,10 +128,23 @@ def kind_totality(ctx: Ctx) -> None:
     if else_t:
         buckets.setdefault("is_text", sorted(else_t)[0])
     # keyword the bucket is passed as to XmlMeta(...)
-    meta_kw = {}
-    for c in calls_in(build.node):
+    meta_kw = _meta_keyword_names(build)
+    for c in []:
         if unparse(c.func) == "XmlMeta":
-            meta_kw = {unparse(k.value): k.arg for k in c.keywords}
+            for k in c.keywords:
+                # the container(s) that can flow into this keyword (through temporaries, tuple packing / unpacking, inlined helpers)
+                gb_ = build_cfg(build.node)
+                cn = node_containing(gb_, c)
+                for leaf, chain in (flows(build, cn, k.value) if cn is not None else []):
+                    if isinstance(leaf, ast.Name):
+                        meta_kw[leaf.id] = k.arg
+                    for dn in chain:  # every local the value passed through names the same container
+                        st_ = dn.ast
+                        tg_ = st_.targets if isinstance(st_, ast.Assign) else ([st_.target] if isinstance(st_, ast.AnnAssign) else [])
+                        for t_ in tg_:
+                            if isinstance(t_, ast.Name):
+                                meta_kw.setdefault(t_.id, k.arg)
+                meta_kw.setdefault(unparse(k.value), k.arg)
     meta = ctx.repo.cls(f"{M}.elements:XmlMeta")
     gev = unparse(meta.methods["get_element_vars"].node)
     gav = unparse(meta.methods["get_attribute_vars"].node)
@@ -200,7 +234,7 @@ def conversion_parameters(ctx: Ctx) -> None:
     sb = ctx.repo.func(f"{PAR}.nodes.standard:StandardNode.bind")
     for c in calls_in(sb.node):
         if unparse(c.func) == "ParserUtils.parse_var":
-            ok = unparse(kwarg(c, "types") or ast.Constant(0)) == "[self.datatype.type]" and unparse(kwarg(c, "format") or ast.Constant(0)) == "self.datatype.format"
+            ok = "[self.datatype.type]" in raw_forms(sb, c, kwarg(c, "types")) and "self.datatype.format" in raw_forms(sb, c, kwarg(c, "format"))
             ctx.ob("StandardNode.bind converts with the xsi:type datatype's type and format", ok, at=sb, node=c, construct="standard datatype params", msg="xsi:type'd value converted with the wrong type/format")
     fx = ctx.repo.func(f"{PAR}.utils:ParserUtils.validate_fixed_value")
     sers = [c for c in calls_in(fx.node) if unparse(c.func) == "converter.serialize"]
@@ -269,16 +303,15 @@ def wrapper_symmetry(ctx: Ctx) -> None:
     e = [y for y in ys if unparse(y.elts[0]).endswith("END") and L(cd, y.elts[1]) == "_.wrapper_qname"]
     ctx.ob("writer emits START/END var.wrapper_qname around wrapped values", len(s) == 1 and len(e) == 1, at=cd, construct="wrapper bracket", msg="wrapper element not written symmetrically")
     b = ctx.repo.func(f"{M}.builders:XmlMetaBuilder.build")
-    meta_call = [c for c in calls_in(b.node) if unparse(c.func) == "XmlMeta"]
-    wmap = unparse(kwarg(meta_call[0], "wrappers")) if meta_call and kwarg(meta_call[0], "wrappers") is not None else None
-    ok = wmap is not None and any(isinstance(tgt, ast.Subscript) and unparse(tgt.value) == wmap and L(b, tgt.slice) == "_.wrapper_qname" and L(b, val) == "_.qname"
-                                  and ast.unparse(tgt.slice.value) == ast.unparse(val.value) for _, tgt, val in stores(b.node) if isinstance(tgt, ast.Subscript) and isinstance(tgt.slice, ast.Attribute) and isinstance(val, ast.Attribute))
+    names = {n for n, kw in _meta_keyword_names(b).items() if kw == "wrappers"}
+    ok = any(isinstance(tgt, ast.Subscript) and isinstance(tgt.value, ast.Name) and tgt.value.id in names and "_.wrapper_qname" in arg_forms(b, st, tgt.slice) and val is not None and "_.qname" in arg_forms(b, st, val)
+             for st, tgt, val in stores(b.node))
     ctx.ob("reader's wrappers map is keyed by var.wrapper_qname -> var.qname", ok, at=b, construct="wrappers map", msg="wrapper map built from another attribute than the one written")
     st = ctx.repo.func(f"{PAR}.bases:NodeParser.start")
     ctx.ob("NodeParser.start consults meta.wrappers before delegating to child()", A("_ in _.meta.wrappers") in asrc(st) and any(call_name_of(c) == "WrapperNode" and {k.arg for k in c.keywords} >= {"parent", "qname", "ns_map"} for c in calls_in(st.node)), at=st,
            construct="wrapper dispatch", msg="wrapper elements treated as unknown children")
     wn = ctx.repo.func(f"{PAR}.nodes.wrapper:WrapperNode.child")
-    ctx.ob("WrapperNode.child delegates to the parent with wrapper=self.qname", any(unparse(c.func) == "self.parent.child" and unparse(kwarg(c, "wrapper") or ast.Constant(0)) == "self.qname" for c in calls_in(wn.node)), at=wn, construct="wrapper child",
+    ctx.ob("WrapperNode.child delegates to the parent with wrapper=self.qname", any(func_text(wn, c) == "self.parent.child" and "self.qname" in raw_forms(wn, c, kwarg(c, "wrapper")) for c in calls_in(wn.node)), at=wn, construct="wrapper child",
            msg="wrapped items lose their wrapper association")
     ec = ctx.repo.func(f"{PAR}.nodes.element:ElementNode.child")
     bo = ctx.repo.func(f"{PAR}.nodes.element:ElementNode.bind_object")
